@@ -117,7 +117,7 @@ def multi_break(seq):
 def classify(name, defn, inp=None):
     fid = classify_structure(name, defn)
     if fid is None and inp is not None:
-        if inp.get("mode") == "c01sub" and name == "F":
+        if inp.get("mode") == "c01sub" and name in ("F", "K", "FS", "FL"):
             return "KF-PARTIAL-EVIDENCE"
         if name == "FB" and _nbreaks_all(defn) >= 1:
             return "KF-EXT-BREAK-FORK"
